@@ -19,7 +19,7 @@ import bc
 import common
 
 MANIFEST = dict(
-    text='Theorems (props/C13.v, 22, all closed under the global context) about a hand-written Gallina model of Broadcaster.broadcast. '
+    text='Theorems (props/C13.v, 28, all closed under the global context) about a hand-written Gallina model of Broadcaster.broadcast. '
          'Join [bcast] (outer alignment on shared level names / cross product on disjoint ones, keys over obj levels ++ new parameter levels): '
          'same_index; rows_carry_restricted_value (every result row carries exactly the payload the original held for the row key restricted to the '
          "original's levels, or NaN when it has no such key -- unbounded: all level layouts, level orders, key sets); no_object_row_lost / "
@@ -30,12 +30,17 @@ MANIFEST = dict(
          'injective on the tables), impl_rows_carry_restricted_value, recode_transparent_refuted (known finding), operands_restored on every normal return, '
          'exception_iff, operands_left_recoded_on_exception. Dispatch of Broadcaster.broadcast in front of it [broadcast_top]: paramset_iff (only a Series with exactly one, '
          'unnamed, level is a set of parameters), row_indexed_joined_as_is (DataFrame / several levels even if all unnamed / any named level, however the name looks: joined as '
-         'it is), object_levels_survive, paramset_on_parameter_levels. The model (including the observed pandas align/join behaviour and its `equals` short-circuit) is tied '
+         'it is), object_levels_survive, paramset_on_parameter_levels. Options / index kinds (Core/BroadcastOpts.v): a single level may be held by an Index, a one-level MultiIndex or a '
+         'RangeIndex; range_coded_by_value (the re-coding looks VALUES up whatever holds them), positional_code_only_if + range_positional_refuted (coding a RangeIndex by position is right only if '
+         'the level table lists its values first and in order; witness: object keys 2,0,3,1 against RangeIndex(4) of the same name); droplevel [drop_prm] = the aligned rows grouped by the '
+         'result levels without the dropped ones: drop_prm_keys / drop_prm_one_row_per_key (exactly the keys of the aligned rows without the dropped components, each once: rows are told apart by '
+         'key, equal values never merge rows), drop_prm_carries (each carries what the original parameter held for that key restricted to its levels, when only levels the parameter lacks are dropped). The model (including the observed pandas align/join behaviour and its `equals` short-circuit) is tied '
          'to the code by vm_compute correspondence on generated layouts on every run; the property oracle runs on the implementation on every run.',
     note=common.TB_NOTE + 'all C13 theorems are closed under the global context. Model is hand-written (pandas align/join behaviour included as '
          'observed): the correspondence harness (generator, canonicalisation of pandas objects into key/row lists, Coq literals) is trusted; '
          'payloads are integer-valued floats so that a row identifies its origin exactly; float arithmetic only in the downstream Woehler relation '
-         '(compared at 1e-12 relative against scalar calls of the same implementation); the droplevel option and the HaighDiagram callers are not covered.',
+         '(compared at 1e-12 relative against scalar calls of the same implementation); droplevel is exercised with levels that only the object has (the documented use, HaighDiagram.transform) '
+         'and not together with integer level names (open finding integer-level-name); value ties are generated as whole equal rows; the HaighDiagram callers themselves are not covered (C12).',
     technique='Coq proof over hand-written Gallina model + vm_compute correspondence + property oracle on the implementation',
     design='6/C13')
 
@@ -445,7 +450,7 @@ def frame_cases(res, pairs, tag):
         terms.append(t)
         meta.append((O.describe(), P.describe()) + ((list(D),) if D else ()))
         if c.ob.rows and len(c.ob.rows) >= 2 and (len(lo) + len(P.levels)) >= 2 and c.inq:
-            nontriv.add(repr((O.describe(), P.describe())))
+            nontriv.add(repr((O.describe(), P.describe(), D)))
     return terms, meta, stats, nontriv, kterms
 
 
@@ -456,7 +461,8 @@ def run(res, only=None):
     res.trusted += ['hand-written Gallina model coq/theories/Core/Broadcast.v (pandas align/join behaviour included as observed), tied by the correspondence check',
                     'harness/bc.py: canonicalisation of pandas objects into (level names, key tuples, row numbers), Coq literals']
     res.assumptions += ['index keys are unique within an operand (the property quantifies over key sets); duplicate keys are exercised but only counted',
-                        'payloads are distinct integer-valued floats, so a result row identifies the original row it carries',
+                        'payloads are integer-valued floats, distinct per row unless a value tie is generated (then a result row identifies the tie class of the original row it carries, and the key decides which row it must be)',
+                        'droplevel: the returned parameter must have exactly the keys of the returned object without the dropped components, each once, carrying the original value of that key (reading of "identical index" under the option; model theorems drop_prm_keys / drop_prm_one_row_per_key / drop_prm_carries)',
                         'result level ORDER is compared with obj levels ++ new parameter levels only up to the rearrangement pandas align leaves for <= 2 levels (the property does not fix it)',
                         'uuid4 names never collide with user level names (model: Fresh vs User constructors)',
                         'which objects are parameter sets (keys become columns) is read from the documented rule: a Series with exactly one index level that is unnamed; '
@@ -465,7 +471,9 @@ def run(res, only=None):
                         'compared with the model (counted in the histogram); where the implementation satisfies the property they are']
     res.cov['rule'] = ('layouts: equal / disjoint / prm-in-obj / obj-in-prm / overlapping level-name sets over 5 names (15%: also the falsy / non-string names \'\', 0, 1 in any '
                        'role), 1-3 levels per operand, permuted level order, unnamed levels incl. Series and DataFrames ALL of whose 2-3 levels are unnamed, parameter-set Series, '
-                       'single level held by a one-level MultiIndex (8%); Series/DataFrame x Series/DataFrame; 1-6 rows per operand drawn from pools of 3-4 keys per level (so that positional codes coincide '
+                       'single level held by a one-level MultiIndex (8%) or by a RangeIndex (named / unnamed, mostly start 0 step 1; ~14% of the single-level operands, the other operand keeps its random key order); '
+                       'option droplevel (40% of the pairs whose object has named levels of its own: a random non-empty subset of them); value ties (30% of the parameters, 12% of the objects: rows holding equal values in every column); '
+                       'Series/DataFrame x Series/DataFrame; 1-6 rows per operand drawn from pools of 3-4 keys per level (so that positional codes coincide '
                        'and key sets differ); overlapping layouts with all shared key tuples present in both (inside the quantifier) and without (outside: counted); '
                        'non-trivial = inside the quantifier, >= 2 result rows, >= 2 levels in total (counted distinct by input)')
     proofs_ok = common.standard_proof_stage(res, 'C13')
